@@ -25,6 +25,10 @@ theorem omitEffective_eq (nonempty : List Bool) (om : Bool) :
 
 theorem frameEnumStart_eq : frameEnumStart = 1 := rfl
 
+/-- the regenerated index bookkeeping of the loop body: pixels and position are taken with the SAME `plane_index`, the
+dimension index value is `plane_dim_ind` (what `planeFrames` writes into `plane`, `posPlane`, `div`) -/
+theorem frameBookkeeping_eq (d p : Int) : frameBookkeeping d p = .ok (p, p, d) := rfl
+
 /-- the planes kept by the model of the read-side theorems (`SegGeom.keptPlanes`) use the same index list -/
 theorem keptPlanes_eq (nonempty : List Bool) (om : Bool) :
     keptPlanes nonempty om = if omitEff nonempty om then nonemptyIdx nonempty else List.range nonempty.length := rfl
@@ -239,30 +243,31 @@ theorem planeSortIndex_refuses (n : Nat) (D : Nat → Rat) (a b : Nat) (ha : a <
 /-- membership in the frames of one segment: the plane at index `i` of the sort index gets dimension index `d + i` -/
 theorem mem_planeFrames (s : Option Nat) (om : Bool) (present : Option Nat → Nat → Bool) (d : Int) (l : List Nat) (f : Frame) :
     f ∈ planeFrames s om present d l ↔
-      f.seg = s ∧ skipped s om (present s f.plane) = false ∧ ∃ i : Nat, l[i]? = some f.plane ∧ f.div = d + i := by
+      f.seg = s ∧ f.posPlane = f.plane ∧ skipped s om (present s f.plane) = false ∧ ∃ i : Nat, l[i]? = some f.plane ∧ f.div = d + i := by
   induction l generalizing d with
   | nil => simp [planeFrames]
   | cons p t ih =>
     simp only [planeFrames]
-    have key : (f.seg = s ∧ skipped s om (present s f.plane) = false ∧ ∃ i : Nat, (p :: t)[i]? = some f.plane ∧ f.div = d + i) ↔
-        (f = ⟨s, p, d⟩ ∧ skipped s om (present s p) = false) ∨
-        (f.seg = s ∧ skipped s om (present s f.plane) = false ∧ ∃ i : Nat, t[i]? = some f.plane ∧ f.div = d + 1 + i) := by
+    have key : (f.seg = s ∧ f.posPlane = f.plane ∧ skipped s om (present s f.plane) = false ∧
+          ∃ i : Nat, (p :: t)[i]? = some f.plane ∧ f.div = d + i) ↔
+        (f = ⟨s, p, p, d⟩ ∧ skipped s om (present s p) = false) ∨
+        (f.seg = s ∧ f.posPlane = f.plane ∧ skipped s om (present s f.plane) = false ∧ ∃ i : Nat, t[i]? = some f.plane ∧ f.div = d + 1 + i) := by
       constructor
-      · rintro ⟨h1, h2, i, h3, h4⟩
+      · rintro ⟨h1, hpp, h2, i, h3, h4⟩
         cases i with
         | zero =>
           left
           simp only [List.getElem?_cons_zero, Option.some.injEq] at h3
-          obtain ⟨fs, fp, fd⟩ := f
-          simp only at h1 h2 h3 h4
-          subst h1 h3
+          obtain ⟨fs, fp, fq, fd⟩ := f
+          simp only at h1 hpp h2 h3 h4
+          subst h1 h3 hpp
           refine ⟨by simp [h4], h2⟩
         | succ j =>
           right
-          refine ⟨h1, h2, j, by simpa using h3, by push_cast at h4; omega⟩
-      · rintro (⟨rfl, h2⟩ | ⟨h1, h2, i, h3, h4⟩)
-        · exact ⟨rfl, h2, 0, by simp, by simp⟩
-        · exact ⟨h1, h2, i + 1, by simpa using h3, by push_cast; omega⟩
+          refine ⟨h1, hpp, h2, j, by simpa using h3, by push_cast at h4; omega⟩
+      · rintro (⟨rfl, h2⟩ | ⟨h1, hpp, h2, i, h3, h4⟩)
+        · exact ⟨rfl, rfl, h2, 0, by simp, by simp⟩
+        · exact ⟨h1, hpp, h2, i + 1, by simpa using h3, by push_cast; omega⟩
     rw [key]
     split
     · rename_i hsk
@@ -439,7 +444,8 @@ theorem mem_segFrames (P : Nat → V3) (rowCos colCos : V3) (nonempty : List Boo
       ∀ f : Frame, f ∈ frames ↔
         f.seg ∈ segs ∧ f.plane ∈ keptPlanes nonempty om ∧ skipped f.seg (omitEff nonempty om) (present f.seg f.plane) = false ∧
         f.div = 1 + (((keptPlanes nonempty om).filter
-          (fun k => decide (distOf P rowCos colCos k < distOf P rowCos colCos f.plane))).length : Int) := by
+          (fun k => decide (distOf P rowCos colCos k < distOf P rowCos colCos f.plane))).length : Int) ∧
+        f.posPlane = f.plane := by
   obtain ⟨psi, hperm, hs, hok⟩ := segFrames_structure P rowCos colCos nonempty hinj om segs present
   refine ⟨_, hok, ?_⟩
   intro f
@@ -451,12 +457,12 @@ theorem mem_segFrames (P : Nat → V3) (rowCos colCos : V3) (nonempty : List Boo
   rw [List.mem_flatMap]
   constructor
   · rintro ⟨s, hs1, hf⟩
-    obtain ⟨h1, h2, i, h3, h4⟩ := (mem_planeFrames s _ present 1 psi f).mp hf
+    obtain ⟨h1, hpp, h2, i, h3, h4⟩ := (mem_planeFrames s _ present 1 psi f).mp hf
     subst h1
-    refine ⟨hs1, hperm.subset (List.mem_of_getElem? h3), h2, ?_⟩
+    refine ⟨hs1, hperm.subset (List.mem_of_getElem? h3), h2, ?_, hpp⟩
     rw [hrank i h3, h4]
-  · rintro ⟨h1, h2, h3, h4⟩
-    refine ⟨f.seg, h1, (mem_planeFrames f.seg _ present 1 psi f).mpr ⟨rfl, h3, ?_⟩⟩
+  · rintro ⟨h1, h2, h3, h4, hpp⟩
+    refine ⟨f.seg, h1, (mem_planeFrames f.seg _ present 1 psi f).mpr ⟨rfl, hpp, h3, ?_⟩⟩
     obtain ⟨i, hi, hip⟩ := List.getElem_of_mem (hperm.symm.subset h2)
     refine ⟨i, by rw [List.getElem?_eq_getElem hi, hip], ?_⟩
     rw [h4, hrank i (by rw [List.getElem?_eq_getElem hi, hip])]
@@ -475,8 +481,8 @@ theorem div_lt_iff (P : Nat → V3) (rowCos colCos : V3) (nonempty : List Bool)
   subst hok
   obtain ⟨s, _, hfs⟩ := List.mem_flatMap.mp hf
   obtain ⟨s', _, hfs'⟩ := List.mem_flatMap.mp hf'
-  obtain ⟨_, _, i, h3, h4⟩ := (mem_planeFrames s _ present 1 psi f).mp hfs
-  obtain ⟨_, _, j, h3', h4'⟩ := (mem_planeFrames s' _ present 1 psi f').mp hfs'
+  obtain ⟨_, _, _, i, h3, h4⟩ := (mem_planeFrames s _ present 1 psi f).mp hfs
+  obtain ⟨_, _, _, j, h3', h4'⟩ := (mem_planeFrames s' _ present 1 psi f').mp hfs'
   rw [h4, h4', ← sorted_index_lt (distOf P rowCos colCos) psi hs i j f.plane f'.plane h3 h3']
   omega
 
@@ -528,14 +534,17 @@ theorem framePositions_of_segFrames (P : Nat → V3) (rowCos colCos : V3) (nonem
     (hinj : ∀ a < nonempty.length, ∀ b < nonempty.length, distOf P rowCos colCos a = distOf P rowCos colCos b → a = b)
     (om : Bool) (segs : List (Option Nat)) (present : Option Nat → Nat → Bool) (frames : List Frame)
     (hok : segFrames ((List.range nonempty.length).map P) rowCos colCos nonempty om segs present = .ok frames) :
-    framePositionsOf ((List.range nonempty.length).map P) frames = some (frames.map (fun f => P f.plane)) := by
+    framePositionsOf ((List.range nonempty.length).map P) frames = some (frames.map (fun f => P f.posPlane)) ∧
+      ∀ f ∈ frames, f.posPlane = f.plane := by
   obtain ⟨frames', hok', hmem⟩ := mem_segFrames P rowCos colCos nonempty hinj om segs present
   rw [hok'] at hok
   simp only [Except.ok.injEq] at hok
   subst hok
+  refine ⟨?_, fun f hf => ((hmem f).mp hf).2.2.2.2⟩
   unfold framePositionsOf
   apply mapM_range_map
   intro f hf
+  rw [((hmem f).mp hf).2.2.2.2]
   exact keptPlanes_bound nonempty om f.plane ((hmem f).mp hf).2.1
 
 /-! ## planes of a volume -/
@@ -581,8 +590,12 @@ theorem framesStack_volume {g : Geom} (hg : Admissible g) (nonempty : List Bool)
     framesStack g.d2 g.d1 g.s1 g.s2 (some g.s0) ((List.range nonempty.length).map (planePosition g)) frames
       = .ok (withChan (storeStack g (frames.map (fun f => f.plane))) (frames.filterMap (fun f => f.seg))) := by
   unfold framesStack
-  rw [framePositions_of_segFrames (planePosition g) g.d2 g.d1 nonempty
-    (fun a _ b _ h => volume_dist_inj hg a b h) om segs present frames hok]
+  obtain ⟨hpos, hpp⟩ := framePositions_of_segFrames (planePosition g) g.d2 g.d1 nonempty
+    (fun a _ b _ h => volume_dist_inj hg a b h) om segs present frames hok
+  rw [hpos]
+  have : frames.map (fun f => planePosition g f.posPlane) = frames.map (fun f => planePosition g f.plane) :=
+    List.map_congr_left (fun f hf => by rw [hpp f hf])
+  rw [this]
   simp only [withChan, storeStack, List.map_map]
   rfl
 
